@@ -47,7 +47,7 @@ struct Mirror {
     /// the event stage proper: results of process_keyevent and the Ctrl mode
     ed: EventDecoder<DynLayout>,
     /// modifier state only (fed events, never asked anything else)
-    ev: Keyboard<DynLayout, DynSet>,
+    ev: KbAny,
 }
 
 impl Scenario for Full {
@@ -221,12 +221,12 @@ impl Scenario for Full {
         let cfg = &trace.cfg;
         let lay = cfg.layout as usize % NLAYOUT_OBJS;
         let mut h = LogHash::new();
-        let mut kb = Keyboard::new(DynSet::new(cfg.set), DynLayout::object(lay), hc(cfg.map));
+        let mut kb = KbAny::new(cfg.set, DynLayout::object(lay), hc(cfg.map));
         let mut mir = Mirror {
             ps2: Ps2Decoder::new(),
             set: DynSet::new(cfg.set),
             ed: EventDecoder::new(DynLayout::object(lay), hc(cfg.map)),
-            ev: Keyboard::new(DynSet::new(cfg.set), DynLayout::object(lay), hc(cfg.map)),
+            ev: KbAny::new(cfg.set, DynLayout::object(lay), hc(cfg.map)),
         };
         // coverage-only models
         let mut fr = RefFramer::new();
@@ -494,7 +494,7 @@ impl Scenario for Full {
         if violation.is_none() && !consumer_log.is_empty() {
             env.cov.probe("obs_schedule_independence_checked");
             let mut rng = Rng::new(cfg.seed2 ^ 0x5EED_5EED);
-            let mut kb2 = Keyboard::new(DynSet::new(cfg.set), DynLayout::object(lay), hc(cfg.map));
+            let mut kb2 = KbAny::new(cfg.set, DynLayout::object(lay), hc(cfg.map));
             let mut produced2: Vec<KeyEvent> = Vec::new();
             let mut ii = 0usize;
             let mut ci = 0usize;
@@ -768,8 +768,8 @@ impl Scenario for Chaos {
         let mut s1 = DynSet::new(1);
         let mut s2 = DynSet::new(2);
         let mut ed = EventDecoder::new(DynLayout::object(lay), hc(cfg.map));
-        let mut kb1 = Keyboard::new(DynSet::new(1), DynLayout::object(lay), hc(cfg.map));
-        let mut kb2 = Keyboard::new(DynSet::new(2), DynLayout::object(lay), hc(cfg.map));
+        let mut kb1 = KbAny::new(1, DynLayout::object(lay), hc(cfg.map));
+        let mut kb2 = KbAny::new(2, DynLayout::object(lay), hc(cfg.map));
         let mut m1 = RefSet1::new();
         let mut m2 = RefSet2::new();
         let mut obj = 0usize;
